@@ -184,7 +184,7 @@ func genCase(rt *rapid.T) *Case {
 	}
 	suspicious := !validType(typ) || nonPlainKind(nameKind)
 	shape := "dir"
-	if x := rapid.IntRange(0, 19).Draw(rt, "shape"); (suspicious && x < 4) || (!suspicious && x < 7) {
+	if x := rapid.IntRange(0, 19).Draw(rt, "shape"); (suspicious && x < 2) || (!suspicious && x < 5) {
 		shape = rp.Pick(rt, "oddShape", "symlink", "symlink", "symlink", "file", "absent", "absent")
 	}
 	suspicious = suspicious || shape == "symlink"
@@ -216,16 +216,16 @@ func genCase(rt *rapid.T) *Case {
 
 	// sibling stores holding other valid roots
 	short := len(name) <= 64 && nameAlphabet(name) && !dotOnly(name)
-	for i, ns := 0, rapid.IntRange(0, 3).Draw(rt, "siblings"); i < ns; i++ {
+	for i, ns := 0, rp.Pick(rt, "siblings", 0, 1, 1, 1, 2, 2); i < ns; i++ {
 		st := rp.Pick(rt, "sibType", eff, eff, "ca", "signingAuthority", "tsa")
 		cand := []string{"other", "s2", "S1", "zz", "s1"}
 		if short {
 			cand = append(cand, name+"2", name+".d", "x"+name, strings.ToUpper(name), name[:len(name)-1]+"_")
 		}
-		b.sibling(st, rapid.SampledFrom(cand).Draw(rt, "sibName"), rapid.IntRange(1, 2).Draw(rt, "sibFiles"), rapid.Bool().Draw(rt, "sibDER"))
+		b.sibling(st, rapid.SampledFrom(cand).Draw(rt, "sibName"), rp.Pick(rt, "sibFiles", 1, 1, 1, 2), rapid.Bool().Draw(rt, "sibDER"))
 	}
 	// certificate files elsewhere in the tree
-	for i, ns := 0, rapid.IntRange(0, 2).Draw(rt, "strays"); i < ns; i++ {
+	for i, ns := 0, rp.Pick(rt, "strays", 0, 1, 1, 2); i < ns; i++ {
 		loc := []string{fmt.Sprintf("stray%d.pem", i), fmt.Sprintf("truststore/stray%d.pem", i), fmt.Sprintf("truststore/x509/stray%d.crt", i),
 			fmt.Sprintf("truststore/x509/%s/stray%d.pem", eff, i)}
 		if b.c.Resolved != "" && len(path.Base(b.c.Resolved)) <= 200 {
